@@ -87,14 +87,20 @@ fn base_scene(bw: u32, bh: u32, focal: f32, near: f32, far: f32, tris: &[[[f32; 
 }
 
 pub fn case_strategy(max_dim: u32, n_hist: usize) -> BoxedStrategy<HsrCase> {
-    (4u32..=max_dim, 4u32..=max_dim, 0.5f32..2.0, prop_oneof![3 => 0.2f32..2.0, 2 => log_uniform(-1.0, 3.7)], 2.0f32..50.0, 2usize..=6, (any::<bool>(), 0u8..4))
-        .prop_flat_map(move |(bw, bh, focal, near, ratio, n, (camera, disc))| {
+    (4u32..=max_dim, 4u32..=max_dim, 0.5f32..2.0, prop_oneof![3 => 0.2f32..2.0, 2 => log_uniform(-1.0, 3.7)], 2.0f32..50.0, 2usize..=6, (any::<bool>(), 0u8..4, prop_oneof![3 => Just(0u8), 1 => Just(1u8), 1 => Just(2u8)], 0u8..4, 0u8..4))
+        .prop_flat_map(move |(bw, bh, focal, near, ratio, n, (camera, disc, cull, fx, fy))| {
             let far = near * ratio;
             let aspect = bw as f32 / bh as f32;
-            (Just((bw, bh, focal, near, far, camera, disc == 0)), view_tris(n..=n, focal, aspect, near, far), proptest::collection::vec(history(n), n_hist..=n_hist + 4))
+            (Just((bw, bh, focal, near, far, camera, disc == 0, cull, fx == 0, fy == 0)), view_tris(n..=n, focal, aspect, near, far), proptest::collection::vec(history(n), n_hist..=n_hist + 4))
         })
-        .prop_map(|((bw, bh, focal, near, far, camera, discard), tris, histories)| {
+        .prop_map(|((bw, bh, focal, near, far, camera, discard, cull, fx, fy), tris, histories)| {
             let mut scene = base_scene(bw, bh, focal, near, far, &tris, camera);
+            // face culling and mirrored viewports (render/Batch doors; the Camera builds its own viewport): which faces
+            // survive must not depend on the order, the partition or the sort setting either
+            scene.cfg.face_cull = cull;
+            if !camera {
+                scene.flip = [fx, fy];
+            }
             // a cut-out (discarding) shader: discarded fragments cover nothing, so they must not occlude anything either
             scene.cfg.discard = discard;
             HsrCase { scene, histories }
@@ -108,7 +114,7 @@ fn solos(sc: &Scene) -> Result<Vec<(Vec<u32>, Vec<f32>, Vec<bool>)>, Fail> {
     for t in 0..sc.tris.len() {
         let mut s1 = sc.clone();
         s1.target = TargetKind::FbOwned;
-        s1.cfg = Cfg { discard: sc.cfg.discard, ..Cfg::plain() };
+        s1.cfg = Cfg { discard: sc.cfg.discard, face_cull: sc.cfg.face_cull, ..Cfg::plain() };
         s1.shared_verts = false;
         let mut s = Session::new(&s1);
         if let Err(p) = s.draw(&[t]) {
@@ -219,6 +225,10 @@ pub fn check(c: &HsrCase, obs: &mut Obs) -> Check {
     obs.class_n("pixels-with-overlap", overlap_px);
     obs.class_n("pixels-excluded-exact-tie", model.iter().filter(|m| m.is_none()).count() as u64);
     obs.class(if sc.door == Door::Camera { "door:camera" } else { "door:render" });
+    obs.class(["cull:none", "cull:back", "cull:front"][sc.cfg.face_cull as usize % 3]);
+    if sc.flip[0] || sc.flip[1] {
+        obs.class("viewport:mirrored");
+    }
     if sc.cfg.discard {
         obs.class("shader:discarding(cut-out)");
     }
@@ -342,6 +352,89 @@ pub fn check_layers(c: &LayerCase, obs: &mut Obs) -> Check {
     Ok(())
 }
 
+// ------------------------------------------------------------------ very many triangles in one call
+
+/// One render call with hundreds or tens of thousands of triangles (around 2^8 and 2^16 of them): with the depth test on,
+/// the three sort settings must leave identical buffers. The last triangle is a large one behind all the small ones, so
+/// that losing or duplicating an element of the (sorted) list shows.
+#[derive(Clone, Debug, Serialize, Deserialize)]
+pub struct ManyCase {
+    pub n: u32,
+    pub seed: u64,
+}
+
+fn many_case() -> BoxedStrategy<ManyCase> {
+    (prop_oneof![2 => 250u32..300, 1 => 1000u32..1100, 3 => 65530u32..65600], any::<u64>()).prop_map(|(n, seed)| ManyCase { n, seed }).boxed()
+}
+
+fn check_many(c: &ManyCase, obs: &mut Obs) -> Check {
+    use re::geom::{vertex, Tri, Vertex};
+    use re::math::{pt2, viewport};
+    use re::render::clip::ClipVec;
+    use re::render::raster::Frag;
+    use re::render::shader::Shader;
+    use re::render::{render, Context, Framebuf};
+    use re::util::buf::Buf2;
+    ensure!(c.n >= 2 && c.n <= 70_000, "bad-case", "triangle count");
+    let (w, h) = (64u32, 64u32);
+    let mut sm = Sm(c.seed);
+    let n = c.n as usize;
+    // small triangles at distinct depths (w = 1 + i/n, nearer first or shuffled), then one large far triangle
+    let mut verts: Vec<Vertex<ClipVec, f32>> = Vec::with_capacity(3 * n);
+    let mut order: Vec<usize> = (0..n - 1).collect();
+    for i in (1..order.len()).rev() {
+        order.swap(i, sm.below(i as u64 + 1) as usize);
+    }
+    for &i in &order {
+        let (cx, cy) = (sm.range(-0.9, 0.9) as f32, sm.range(-0.9, 0.9) as f32);
+        let wv = 1.0 + i as f32 / n as f32;
+        let d = 0.04f32;
+        for (dx, dy) in [(0.0, 0.0), (d, 0.0), (0.0, d)] {
+            verts.push(vertex([(cx + dx) * wv, (cy + dy) * wv, 0.0, wv].into(), (i + 1) as f32));
+        }
+    }
+    for (x, y) in [(-0.95f32, -0.95f32), (0.95, -0.95), (0.0, 0.95)] {
+        verts.push(vertex([x * 3.0, y * 3.0, 1.0, 3.0].into(), n as f32));
+    }
+    let faces: Vec<Tri<usize>> = (0..n).map(|i| Tri([3 * i, 3 * i + 1, 3 * i + 2])).collect();
+    let shader = Shader::new(|v: Vertex<ClipVec, f32>, _: ()| v, |f: Frag<f32>| color_of_id(f.var.round() as u32));
+    let run = |sort: Option<re::render::ctx::DepthSort>| -> Result<(Vec<u32>, Vec<u32>), String> {
+        let ctx = Context { depth_sort: sort, face_cull: None, ..Context::default() };
+        let mut fb = Framebuf { color_buf: Buf2::new_from((w, h), vec![0u32; (w * h) as usize]), depth_buf: Buf2::new_from((w, h), vec![0.0f32; (w * h) as usize]) };
+        catch(|| render(&faces, &verts, &shader, (), viewport(pt2(0, 0)..pt2(w, h)), &mut fb, &ctx))?;
+        Ok((fb.color_buf.data().to_vec(), fb.depth_buf.data().iter().map(|d| d.to_bits()).collect()))
+    };
+    let base = run(None).map_err(|p| Fail::new("render-panic", format!("render of {n} triangles panicked: {p}")))?;
+    let big_visible = base.0.iter().filter(|&&c| c == color_bits_of_id(n as u32)).count();
+    for (name, sort) in [("FrontToBack", re::render::ctx::DepthSort::FrontToBack), ("BackToFront", re::render::ctx::DepthSort::BackToFront)] {
+        let got = run(Some(sort)).map_err(|p| Fail::new("render-panic", format!("render of {n} triangles with depth_sort {name} panicked: {p}")))?;
+        if let Some(i) = (0..base.0.len()).find(|&i| got.0[i] != base.0[i] || got.1[i] != base.1[i]) {
+            fail!(
+                "sort-setting-changes-the-image",
+                "{n} triangles in one call: pixel ({}, {}) holds colour {:#x} depth bits {:#x} without sorting but {:#x} / {:#x} with depth_sort {name} (depth test on: the sort must not matter)",
+                i as u32 % w,
+                i as u32 / w,
+                base.0[i],
+                base.1[i],
+                got.0[i],
+                got.1[i]
+            );
+        }
+    }
+    obs.class(if n > 65536 { "many:more than 65536 triangles in one call" } else if n > 256 { "many:257..65536 triangles" } else { "many:<= 256 triangles" });
+    if big_visible > 0 {
+        obs.nontrivial(hash_of(&(c.n, c.seed)));
+    }
+    Ok(())
+}
+
+fn color_bits_of_id(id: u32) -> u32 {
+    id
+}
+fn color_of_id(id: u32) -> re::math::Color4 {
+    re::math::rgba((id >> 16) as u8, (id >> 8) as u8, id as u8, (id >> 24) as u8)
+}
+
 pub fn run(cx: &mut Ctx) {
     cx.assume("triangle ids are flat attributes decoded by rounding in the harness fragment shader, so last-bit differences between fan sub-triangles of one input triangle cannot masquerade as order dependence");
     cx.assume("pixels where two different triangles' solo depths are bit-equal (exact tie) are excluded, as the property's quantifier says");
@@ -350,11 +443,17 @@ pub fn run(cx: &mut Ctx) {
     cx.prop_check("histories", n, move || case_strategy(md, nh), |c, obs| check(c, obs));
     let n = cx.n(60_000, 1_000_000);
     cx.prop_check("layers", n, move || layer_strategy(md), |c, obs| check_layers(c, obs));
+    let n = cx.n(48, 600);
+    cx.prop_check("many-triangles", n, many_case, |c, obs| check_many(c, obs));
 }
 
 pub fn replay(sub: &str, case: &Value) -> Check {
     let mut obs = Obs::new();
     obs.freeze();
+    if sub == "many-triangles" {
+        let c: ManyCase = serde_json::from_value(case.clone()).map_err(|e| Fail::new("bad-replay", e.to_string()))?;
+        return check_many(&c, &mut obs);
+    }
     if sub == "layers" {
         let c: LayerCase = serde_json::from_value(case.clone()).map_err(|e| Fail::new("bad-replay", e.to_string()))?;
         check_layers(&c, &mut obs)
